@@ -170,6 +170,15 @@ def run_kani_group(group_key, units, jobs=4):
         m = re.search(r'error(\[E\d+\])?: .*', out)
         if m:
             reason = 'build/compile error under cfg(kani): ' + m.group(0)[:300]
+        if not m and len(units) > 1:
+            # kani-driver died (e.g. CBMC crashed in one harness and the parallel output parser
+            # panicked): fall back to one process per harness so the others are still decided.
+            from concurrent.futures import ThreadPoolExecutor
+            with ThreadPoolExecutor(max_workers=jobs) as ex:
+                parts = list(ex.map(lambda u: run_kani_group(group_key, [u], jobs=1), units))
+            return [r for part in parts for r in part]
+        if 'out of memory' in out or 'CBMC failed' in out:
+            reason = 'CBMC failed / ran out of memory (tool limit)'
         for r in results.values():
             r.reason = reason
             r.raw_tail = out[-3000:]
@@ -185,7 +194,7 @@ def run_kani_group(group_key, units, jobs=4):
         u = r.unit
         r.wall_s = res.get('duration_ms', 0) / 1000.0
         st = stats.get(hid, {})
-        r.solver_s = round(st.get('runtime_decision_procedure_s', 0.0) + st.get('runtime_symex_s', 0.0), 3)
+        r.solver_s = round((st.get('runtime_decision_procedure_s') or 0.0) + (st.get('runtime_symex_s') or 0.0), 3)
         pd = pdet.get(hid, {})
         checks = res.get('checks', [])
         covers = [c for c in checks if c.get('category') == 'cover' or c.get('status') in ('SATISFIED', 'UNSATISFIABLE', 'Satisfied', 'Unsatisfiable')]
